@@ -1097,6 +1097,26 @@ def rule_data_format(ctx):
                 and isinstance(sub.args[0], ast.Name) and sub.args[0].id == n:
             if not isinstance(getattr(sub, "_parent", None), ast.Expr):
                 problems.append("`%s` is applied to the sample in the cell formatter" % unparse(sub))
+    # the formatted text is padded, never cut: no slice of (a name holding) the formatted / padded text
+    textnames = set()
+    for sub in walk_shallow(fmtf.node):
+        if isinstance(sub, ast.Assign) and len(sub.targets) == 1 and isinstance(sub.targets[0], ast.Name):
+            v = sub.value
+            if (isinstance(v, ast.BinOp) and isinstance(v.op, ast.Mod)) or (
+                    isinstance(v, ast.Call) and isinstance(v.func, ast.Attribute) and v.func.attr in ("rjust", "ljust", "center", "format")) or (
+                    isinstance(v, ast.Call) and isinstance(v.func, ast.Name) and v.func.id == "str"):
+                textnames.add(sub.targets[0].id)
+    for sub in walk_shallow(fmtf.node):
+        if isinstance(sub, ast.Subscript) and isinstance(sub.slice, ast.Slice) and isinstance(sub.ctx, ast.Load):
+            b = sub.value
+            cut = (isinstance(b, ast.Name) and b.id in textnames) or (
+                isinstance(b, ast.Call) and isinstance(b.func, ast.Attribute) and b.func.attr in ("rjust", "ljust", "center", "format")) or (
+                isinstance(b, ast.BinOp) and isinstance(b.op, ast.Mod))
+            if cut:
+                problems.append("the formatted sample is cut with `%s`: a value wider than its field loses digits in the data section "
+                                "(while STRT/STOP/STEP keep the full value)" % unparse(sub))
+        if isinstance(sub, ast.Call) and ast.unparse(sub.func).split(".")[-1] in ("shorten", "truncate"):
+            problems.append("the formatted sample is shortened with `%s`" % unparse(sub))
     fmts = [b for b in walk_shallow(fmtf.node) if isinstance(b, ast.BinOp) and isinstance(b.op, ast.Mod)]
     if not any(isinstance(b.right, ast.Name) and b.right.id == n and isinstance(b.left, ast.Name) for b in fmts):
         problems.append("a finite sample is not written as `<fmt> % <sample>`")
@@ -1119,3 +1139,64 @@ def rule_data_format(ctx):
     ctx.check(bool(wraps) and not problems, "WR.DATA-FORMAT", "writer#wrap-rows-only", fw, wraps[0][1] if wraps else fw.node,
               "only the per-depth-step data rows are wrapped", "; ".join(problems) or "no wrapping of data rows found")
     ctx.floor("WR.DATA-FORMAT", 2)
+
+
+def rule_wrap_consistent(ctx):
+    """WR.WRAP-CONSISTENT: whether the data rows are physically wrapped is decided by the same `wrap` value that the WRAP
+    header item states (the reader chooses its engine and its reshape from that item)"""
+    p = ctx.p
+    fw = p.func("writer.write")
+    fam = write_family(p)
+    if "wrap" not in fw.params():
+        ctx.undecided("WR.WRAP-CONSISTENT", "writer.write#wrap", fw, fw.node, "writer.write has no `wrap` parameter")
+        return
+    n = 0
+    # 1. the branch that wraps
+    for f in fam:
+        for c in walk_shallow(f.node):
+            if isinstance(c, ast.Call) and isinstance(c.func, ast.Attribute) and c.func.attr in ("wrap", "fill") and c.args:
+                recv = ast.unparse(c.func.value)
+                if "wrapper" not in recv.lower() and "textwrap" not in recv:
+                    continue
+                n += 1
+                guards = []
+                cur, child = getattr(c, "_parent", None), c
+                while cur is not None and cur is not f.node:
+                    if isinstance(cur, ast.If):
+                        guards.append((cur.test, child in cur.body))
+                    child, cur = cur, getattr(cur, "_parent", None)
+                ok = len(guards) == 1 and guards[0][1] and isinstance(guards[0][0], ast.Name) and "wrap" in guards[0][0].id
+                ctx.check(ok, "WR.WRAP-CONSISTENT", "writer.write#wrap-branch", f, c,
+                          "rows are wrapped exactly when `wrap` is set (the value the WRAP item is written from)",
+                          "rows are wrapped under %s, not under the `wrap` option alone: the file's WRAP item and its physical layout "
+                          "can disagree, and the reader then reshapes the data with the wrong engine"
+                          % ([("" if pol else "not ") + unparse(t) for t, pol in guards] or "no condition"))
+    # 2. WRAP item stores follow the option
+    for s_ in walk_shallow(fw.node):
+        if isinstance(s_, ast.Assign) and len(s_.targets) == 1 and isinstance(s_.targets[0], ast.Subscript) \
+                and isinstance(s_.targets[0].slice, ast.Constant) and s_.targets[0].slice.value == "WRAP" and isinstance(s_.value, ast.Call):
+            vals = [a.value for a in s_.value.args if isinstance(a, ast.Constant)] + [k.value.value for k in s_.value.keywords if isinstance(k.value, ast.Constant)]
+            state = "YES" if "YES" in vals else ("NO" if "NO" in vals else None)
+            iff = enclosing(s_, (ast.If,))
+            t = iff.test if iff is not None else None
+            want = None
+            if isinstance(t, ast.Compare) and isinstance(t.left, ast.Name) and t.left.id == "wrap" and len(t.ops) == 1 \
+                    and isinstance(t.ops[0], (ast.Is, ast.Eq)) and isinstance(t.comparators[0], ast.Constant):
+                want = {True: "YES", False: "NO"}.get(t.comparators[0].value)
+            elif isinstance(t, ast.Name) and t.id == "wrap":
+                want = "YES"
+            n += 1
+            ctx.check(state is not None and state == want, "WR.WRAP-CONSISTENT", "writer.write#WRAP-item(%s)" % state, fw, s_,
+                      "WRAP item %s is stored under `%s`" % (state, unparse(t) if t is not None else None),
+                      "the WRAP item is set to %s under `%s`" % (state, unparse(t) if t is not None else "no condition"))
+    # 3. wrap=None takes the value from the header item
+    for s_ in walk_shallow(fw.node):
+        if isinstance(s_, ast.Assign) and len(s_.targets) == 1 and isinstance(s_.targets[0], ast.Name) and s_.targets[0].id == "wrap":
+            n += 1
+            txt = ast.unparse(s_.value)
+            ok = isinstance(s_.value, ast.Compare) and "WRAP" in txt and "'YES'" in txt and isinstance(s_.value.ops[0], ast.Eq)
+            ctx.check(ok, "WR.WRAP-CONSISTENT", "writer.write#wrap-default", fw, s_, "wrap=None means: as the WRAP item says (== 'YES')",
+                      "`%s` does not derive the default from WRAP == 'YES'" % unparse(s_))
+    if n == 0:
+        ctx.undecided("WR.WRAP-CONSISTENT", "writer.write#wrap", fw, fw.node, "no wrapping branch / WRAP store found in a recognised form")
+    ctx.floor("WR.WRAP-CONSISTENT", 0)
